@@ -153,4 +153,148 @@ theorem markDups_witness (roots : List Tree)
     simp [dupGet] at h
 
 end
+/-! ### idempotence of canonisation -/
+
+/-- relation between the state while canonising `t` and the state while canonising its canonical form -/
+structure IdemInv (st st2 : CanonT) : Prop where
+  stack : st2.stack = st.stack
+  fwd : ∀ x c, (x, c) ∈ st.map → st2.map.lookup c = some c
+  diag : ∀ k v, (k, v) ∈ st2.map → k = v ∧ ∃ j, j < st.stack ∧ k = canonName j
+
+theorem lookup_mapInsert_self (k v : Name) (m : List (Name × Name)) : (mapInsert k v m).lookup k = some v := by
+  simp [mapInsert, List.lookup]
+
+theorem lookup_mapInsert_ne (k v x : Name) (m : List (Name × Name)) (h : x ≠ k) :
+    (mapInsert k v m).lookup x = m.lookup x := by
+  have hb : (x == k) = false := beq_eq_false_iff_ne.mpr h
+  simp only [mapInsert, List.lookup, hb]
+  induction m with
+  | nil => rfl
+  | cons e m ih =>
+    obtain ⟨a, b⟩ := e
+    simp only [List.filter_cons]
+    by_cases ha : a = k
+    · have h1 : ((a, b).1 != k) = false := by simp [ha]
+      have h2 : (x == a) = false := beq_eq_false_iff_ne.mpr (by rw [ha]; exact h)
+      simp only [h1, Bool.false_eq_true, if_false, List.lookup, h2]
+      exact ih
+    · have h1 : ((a, b).1 != k) = true := by simpa using ha
+      simp only [h1, if_true, List.lookup]
+      rw [ih]
+
+theorem IdemInv.insert {st st2 : CanonT} (h : IdemInv st st2) (hst : CanonInv st) (v : Name) :
+    IdemInv ⟨mapInsert v (canonName st.stack) st.map, st.stack + 1⟩
+      ⟨mapInsert (canonName st2.stack) (canonName st2.stack) st2.map, st2.stack + 1⟩ := by
+  rw [h.stack]
+  refine ⟨rfl, ?_, ?_⟩
+  · intro x c hm
+    rcases mem_mapInsert.mp hm with ⟨_, rfl⟩ | ⟨_, hm'⟩
+    · exact lookup_mapInsert_self _ _ _
+    · obtain ⟨j, hj, rfl⟩ := hst.bound x c hm'
+      have hne : canonName j ≠ canonName st.stack := fun hh => by have := canonName_inj hh; omega
+      rw [lookup_mapInsert_ne _ _ _ _ hne]
+      exact h.fwd x _ hm'
+  · intro k v' hm
+    rcases mem_mapInsert.mp hm with ⟨rfl, rfl⟩ | ⟨_, hm'⟩
+    · exact ⟨rfl, st.stack, by simp, rfl⟩
+    · obtain ⟨h1, j, hj, h2⟩ := h.diag k v' hm'
+      exact ⟨h1, j, by simp; omega, h2⟩
+
+/-- the canonical name of a variable occurrence is a fixed point of canonisation in the related state -/
+theorem canonVar_idem {st st2 : CanonT} (h : IdemInv st st2) (hst : CanonInv st) (v : Name) :
+    (canonVar (canonVar v st).1 st2).1 = (canonVar v st).1 ∧ IdemInv (canonVar v st).2 (canonVar (canonVar v st).1 st2).2 := by
+  unfold canonVar
+  cases hl : st.map.lookup v with
+  | some cn =>
+    simp only
+    rw [h.fwd v cn (lookup_mem' _ hl)]
+    exact ⟨rfl, h⟩
+  | none =>
+    simp only
+    have hnew : st2.map.lookup (canonName st.stack) = none := by
+      cases hl2 : st2.map.lookup (canonName st.stack) with
+      | none => rfl
+      | some c =>
+        exfalso
+        obtain ⟨_, j, hj, hk⟩ := h.diag _ c (lookup_mem' _ hl2)
+        have := canonName_inj hk
+        omega
+    rw [hnew]
+    simp only
+    rw [h.stack]
+    exact ⟨rfl, by have := h.insert hst v; rw [h.stack] at this; exact this⟩
+
+/-- IDEMPOTENCE: canonising a canonical form changes nothing -/
+theorem canonTreeAux_idem : ∀ (t : Tree) (st st2 : CanonT), CanonInv st → IdemInv st st2 →
+    (canonTreeAux (canonTreeAux t st).1 st2).1 = (canonTreeAux t st).1 ∧
+    IdemInv (canonTreeAux t st).2 (canonTreeAux (canonTreeAux t st).1 st2).2 := by
+  intro t
+  induction t with
+  | atom a =>
+    intro st st2 hst h
+    cases a with
+    | var v =>
+      have := canonVar_idem h hst v
+      simp only [canonTreeAux]
+      exact ⟨by rw [this.1], this.2⟩
+    | _ => exact ⟨by simp [canonTreeAux], by simpa [canonTreeAux] using h⟩
+  | un o c ih =>
+    intro st st2 hst h
+    have := ih st st2 hst h
+    simp only [canonTreeAux]
+    exact ⟨by rw [this.1], this.2⟩
+  | bin o l r ihl ihr =>
+    intro st st2 hst h
+    have a := ihl st st2 hst h
+    have b := ihr _ _ (canonTreeAux_inv l st hst) a.2
+    simp only [canonTreeAux]
+    exact ⟨by rw [a.1, b.1], b.2⟩
+  | hyb o v d c ih =>
+    intro st st2 hst h
+    by_cases hj : o = .jump
+    · subst hj
+      have a := canonVar_idem h hst v
+      have b := ih _ _ (canonVar_inv hst v) a.2
+      simp only [canonTreeAux, if_true]
+      exact ⟨by rw [a.1, b.1], b.2⟩
+    · have hi := h.insert hst v
+      have b := ih _ _ (hst.insert v) hi
+      simp only [canonTreeAux, hj, if_false]
+      rw [h.stack] at b ⊢
+      exact ⟨by rw [b.1], b.2⟩
+
+theorem canonTree_idempotent (t : Tree) : (canonTree (canonTree t).1).1 = (canonTree t).1 := by
+  have := canonTreeAux_idem t {} {} CanonInv.init ⟨rfl, fun _ _ h => by simp at h, fun _ _ h => by simp at h⟩
+  simpa [canonTree] using this.1
+
+
+/-- character level: canonising the canonical text of a formula over valid identifiers changes nothing -/
+theorem canonChars_idempotent {C : CharClass} (hC : Lex.CharsOK C) (t : Tree) (ht : Lex.TreeOK C t ∧ PropNamesOK t) :
+    (canonChars (canonChars t.render).1).1 = (canonChars t.render).1 := by
+  rw [canonChars_render hC t ht.1]
+  simp only
+  rw [canonChars_render hC _ (canonTree_valid hC t ht).1, canonTree_idempotent]
+
+/-- COMPLETENESS of canonical forms: a consistent (injective) renaming of the variable names does not change the
+canonical form; the renaming map is renamed accordingly -/
+theorem canon_invariant_under_renaming (f : Name → Name) (t : Tree)
+    (hinj : ∀ x y, x ∈ varNames t → y ∈ varNames t → f x = f y → x = y) :
+    (canonTree (t.mapVars f)).1 = (canonTree t).1 ∧ (canonTree (t.mapVars f)).2 = mapKeys f (canonTree t).2 := by
+  have := (canonTreeAux_mapKeys f (fun x => x ∈ varNames t) hinj t {} (by simp) (fun x hx => hx)).1
+  simp only [mapKeys_nil] at this
+  have e1 : ({ map := [], stack := ({} : CanonT).stack } : CanonT) = {} := rfl
+  rw [e1] at this
+  simp only [canonTree]
+  rw [this]
+  exact ⟨rfl, rfl⟩
+
+/-- SOUNDNESS of canonical forms for the keys the cache uses: if a depth-named, well-scoped tree with a single variable
+name has the same canonical form as another depth-named tree, the other one is the first with its variable renamed -/
+theorem canon_eq_imp_renaming_single (k : Nat) (t1 t2 : Tree) (d1 d2 : Nat) (v1 : Name)
+    (hT : (canonTree t1).1 = (canonTree t2).1) (ho : OnlyVar v1 t1) (hd1 : DepthNamed d1 t1) (hw1 : WellScoped k d1 t1)
+    (hd2 : DepthNamed d2 t2) : ∃ v2, t2 = t1.mapVars (fun _ => v2) := by
+  simp only [canonTree] at hT
+  obtain ⟨v2, h2⟩ := single_name_transfer k t1 t2 d1 d2 v1 hT ho hd1 hw1 hd2
+  exact ⟨v2, eq_mapVars_of_canon_eq t1 t2 {} {} v2 hT h2⟩
+
 end Hctl
